@@ -25,7 +25,7 @@ META = {
             "reserved id 4..255, for v9 also ids 2 and 3 - followed by ANY rest changes the decoder state only by advancing the "
             "reader over the set: cache and records untouched, error slot non-fatal), decodeSet_skips_unknownElem (the same for a "
             "data set with a cached template and a body of at least minRecLen octets - one shortest record, so that the record loop is "
-            "entered (padding repair aeca3ca; formerly > 4 octets) - on which the record decoder, run on the body alone, stops at an "
+            "entered (padding repair 3c79378; formerly > 4 octets) - on which the record decoder, run on the body alone, stops at an "
             "element missing from the information model), outer_skips / outer_skips_tail (the outer loop continues on the rest as "
             "if the set were absent), outer_locality (what a clean prefix decodes to does not depend on what follows) and "
             "decode_skips: for hdr ++ pre ++ u ++ post vs hdr ++ pre ++ post, where pre decodes on its own cleanly to its exact "
